@@ -1,7 +1,539 @@
 package main
 
-// tryReplay attempts to reproduce a solver model on the real code.
-// Returns (reproduced, transcript).
-func tryReplay(prog *Program, prop string, o *Obligation, verif string) (bool, string) {
-	return false, ""
+// Replay of solver counterexamples on the real code.
+//
+// For a failed obligation that came back `sat`, the parameter values of the
+// model are read back from the solver (get-value), a throw-away in-package test
+// calling the real function with those values is injected with `go test
+// -overlay` (nothing is written to the tree under check), and the violation
+// counts as reproduced when
+//   - safe:* obligation : the call panics,
+//   - post:* obligation : the postcondition, translated to Go, evaluates to false
+//     on the values the real function returned.
+// Scope: functions (or methods on named basic types) whose parameters are
+// integers, booleans, strings, byte/integer/string slices (up to 16 elements in
+// the model) or byte arrays, and postconditions without quantifiers, ghosts or
+// spec functions. Everything else is reported as "no replay available".
+
+import (
+	"fmt"
+	"go/ast"
+	"go/types"
+	"os"
+	"os/exec"
+	"path/filepath"
+	"regexp"
+	"strconv"
+	"strings"
+)
+
+const replayMaxElems = 16
+
+type replayParam struct {
+	name string
+	ty   types.Type
+	smt  string // p_name!k
 }
+
+func tryReplay(prog *Program, prop string, o *Obligation, verif string) (bool, string) {
+	if strings.Contains(o.Unit, "#lit") || strings.HasPrefix(o.Unit[strings.LastIndex(o.Unit, "/")+1:], "lemma:") {
+		return false, "no replay available: the unit is not a declared function"
+	}
+	full := modulePath + "/" + o.Unit
+	fi := prog.funcs[full]
+	if fi == nil || fi.decl == nil || fi.decl.Body == nil {
+		return false, "no replay available: function not found"
+	}
+	kind := ""
+	switch {
+	case strings.Contains(o.Name, "/safe:"):
+		kind = "safe"
+	case strings.Contains(o.Name, "/post"):
+		kind = "post"
+	default:
+		return false, "no replay available: only safe:* and post:* obligations are replayed"
+	}
+	obj, _ := fi.pkg.info.Defs[fi.decl.Name].(*types.Func)
+	if obj == nil {
+		return false, "no replay available: no type information"
+	}
+	sig := obj.Type().(*types.Signature)
+	imports := map[string]string{} // path -> name
+	qual := func(p *types.Package) string {
+		if p == fi.pkg.types {
+			return ""
+		}
+		imports[p.Path()] = p.Name()
+		return p.Name()
+	}
+	var params []replayParam
+	add := func(v *types.Var) bool {
+		if v.Name() == "" || v.Name() == "_" {
+			return false
+		}
+		params = append(params, replayParam{name: v.Name(), ty: v.Type()})
+		return true
+	}
+	recvExpr := ""
+	if r := sig.Recv(); r != nil {
+		if _, basic := r.Type().Underlying().(*types.Basic); basic {
+			if !add(r) {
+				return false, "no replay available: unnamed receiver"
+			}
+		} else if pt, isPtr := r.Type().(*types.Pointer); isPtr {
+			// a pointer receiver is replayed on a fresh zero value (sound: a violation is only
+			// reported as reproduced when the real code shows it)
+			if _, isStruct := pt.Elem().Underlying().(*types.Struct); !isStruct {
+				return false, "no replay available: receiver type"
+			}
+			recvExpr = "new(" + types.TypeString(pt.Elem(), qual) + ")"
+		} else if _, isStruct := r.Type().Underlying().(*types.Struct); isStruct {
+			recvExpr = types.TypeString(r.Type(), qual) + "{}"
+		} else {
+			return false, "no replay available: receiver type"
+		}
+	}
+	for i := 0; i < sig.Params().Len(); i++ {
+		if !add(sig.Params().At(i)) {
+			return false, "no replay available: unnamed parameter"
+		}
+	}
+	if sig.Variadic() {
+		return false, "no replay available: variadic function"
+	}
+	// SMT names of the parameters
+	for i := range params {
+		re := regexp.MustCompile(`\(declare-fun (p_` + regexp.QuoteMeta(sanitize(params[i].name)) + `![0-9]+)(\.arr|\.len)? \(\)`)
+		m := re.FindStringSubmatch(o.Text)
+		if m == nil {
+			// parameter unused in the condition: any value will do
+			continue
+		}
+		params[i].smt = m[1]
+	}
+	// terms to read back
+	var terms []string
+	for _, p := range params {
+		if p.smt == "" {
+			continue
+		}
+		switch u := p.ty.Underlying().(type) {
+		case *types.Basic:
+			terms = append(terms, p.smt)
+		case *types.Slice:
+			terms = append(terms, p.smt+".len")
+			for k := 0; k < replayMaxElems; k++ {
+				terms = append(terms, fmt.Sprintf("(select %s.arr %d)", p.smt, k))
+			}
+		case *types.Pointer:
+			if p.ty.String() != "*math/big.Int" {
+				return false, fmt.Sprintf("no replay available: parameter %s has type %s", p.name, p.ty)
+			}
+			terms = append(terms, fmt.Sprintf("(select H0_cell_bigint %s)", p.smt))
+		case *types.Array:
+			if u.Len() > 64 {
+				return false, "no replay available: large array parameter"
+			}
+			for k := int64(0); k < u.Len(); k++ {
+				terms = append(terms, fmt.Sprintf("(select %s %d)", p.smt, k))
+			}
+		default:
+			return false, fmt.Sprintf("no replay available: parameter %s has type %s", p.name, p.ty)
+		}
+	}
+	// string literals of the unit (to map model strings back to their text)
+	litRe := regexp.MustCompile(`\(declare-fun (strlit_[0-9]+) \(\) Str\)`)
+	var lits []string
+	for _, m := range litRe.FindAllStringSubmatch(o.Text, -1) {
+		lits = append(lits, m[1])
+	}
+	terms = append(terms, lits...)
+	vals := map[string]string{}
+	if len(terms) > 0 {
+		script := strings.Replace(o.Text, "(get-model)", "", -1)
+		script += "\n(get-value (" + strings.Join(terms, " ") + "))\n"
+		cmd := exec.Command("z3-new", "-smt2", "-T:30", "-in")
+		cmd.Stdin = strings.NewReader(script)
+		out, _ := cmd.Output()
+		s := string(out)
+		if !strings.HasPrefix(strings.TrimSpace(s), "sat") {
+			return false, "no replay available: the model could not be re-read (" + firstLine(s) + ")"
+		}
+		for _, t := range terms {
+			if v, ok := findValue(s, t); ok {
+				vals[t] = v
+			}
+		}
+	}
+	litText := map[string]string{} // model value -> literal text
+	for text, name := range prog.strLits {
+		if v, ok := vals[name]; ok {
+			litText[v] = text
+		}
+	}
+	goStr := func(v string) string {
+		if t, ok := litText[v]; ok {
+			return strconv.Quote(t)
+		}
+		return strconv.Quote("s_" + sanitize(v))
+	}
+	scalar := func(t types.Type, v string, have bool) (string, bool) {
+		b, ok := t.Underlying().(*types.Basic)
+		if !ok {
+			return "", false
+		}
+		ts := types.TypeString(t, qual)
+		switch {
+		case b.Info()&types.IsBoolean != 0:
+			if !have {
+				v = "false"
+			}
+			return ts + "(" + v + ")", true
+		case b.Info()&types.IsInteger != 0:
+			if !have {
+				v = "0"
+			}
+			return ts + "(" + smtInt(v) + ")", true
+		case b.Info()&types.IsString != 0:
+			if !have {
+				return ts + `("")`, true
+			}
+			return ts + "(" + goStr(v) + ")", true
+		}
+		return "", false
+	}
+	var decls, args []string
+	for _, p := range params {
+		switch u := p.ty.Underlying().(type) {
+		case *types.Basic:
+			v, have := vals[p.smt]
+			g, ok := scalar(p.ty, v, have && p.smt != "")
+			if !ok {
+				return false, fmt.Sprintf("no replay available: parameter %s has type %s", p.name, p.ty)
+			}
+			decls = append(decls, fmt.Sprintf("%s := %s", p.name, g))
+		case *types.Slice:
+			n := 0
+			if p.smt != "" {
+				n64, err := strconv.ParseInt(smtInt(vals[p.smt+".len"]), 10, 64)
+				if err != nil || n64 < 0 || n64 > replayMaxElems {
+					return false, fmt.Sprintf("no replay available: slice %s has %s elements in the model", p.name, vals[p.smt+".len"])
+				}
+				n = int(n64)
+			}
+			var es []string
+			for k := 0; k < n; k++ {
+				v, have := vals[fmt.Sprintf("(select %s.arr %d)", p.smt, k)]
+				g, ok := scalar(u.Elem(), v, have)
+				if !ok {
+					return false, fmt.Sprintf("no replay available: elements of %s have type %s", p.name, u.Elem())
+				}
+				es = append(es, g)
+			}
+			decls = append(decls, fmt.Sprintf("%s := %s{%s}", p.name, types.TypeString(p.ty, qual), strings.Join(es, ", ")))
+		case *types.Pointer:
+			if p.ty.String() != "*math/big.Int" {
+				return false, fmt.Sprintf("no replay available: parameter %s has type %s", p.name, p.ty)
+			}
+			v := "0"
+			if p.smt != "" {
+				if mv, ok := vals[fmt.Sprintf("(select H0_cell_bigint %s)", p.smt)]; ok {
+					v = smtInt(mv)
+				}
+			}
+			imports["math/big"] = "big"
+			decls = append(decls, fmt.Sprintf("%s, _ := new(big.Int).SetString(%q, 10)", p.name, v))
+		case *types.Array:
+			var es []string
+			for k := int64(0); k < u.Len(); k++ {
+				v, have := vals[fmt.Sprintf("(select %s %d)", p.smt, k)]
+				g, ok := scalar(u.Elem(), v, have && p.smt != "")
+				if !ok {
+					return false, "no replay available: array element type"
+				}
+				es = append(es, g)
+			}
+			decls = append(decls, fmt.Sprintf("%s := %s{%s}", p.name, types.TypeString(p.ty, qual), strings.Join(es, ", ")))
+		}
+		args = append(args, p.name)
+	}
+	call := fi.decl.Name.Name + "("
+	if sig.Recv() != nil {
+		if recvExpr == "" {
+			recvExpr = args[0]
+			args = args[1:]
+		} else {
+			decls = append(decls, "verifRecv := "+recvExpr)
+			recvExpr = "verifRecv"
+		}
+		call = recvExpr + "." + call
+	}
+	call += strings.Join(args, ", ") + ")"
+	// results
+	nres := sig.Results().Len()
+	var rnames []string
+	for i := 0; i < nres; i++ {
+		rnames = append(rnames, fmt.Sprintf("r%d", i))
+	}
+	// postcondition in Go (post obligations only)
+	postGo, postNote := "", ""
+	if kind == "post" {
+		ct := prog.contractFor(full)
+		if ct == nil {
+			ct = prog.contractFor(fi.key)
+		}
+		var cl *Clause
+		if ct != nil {
+			lab := o.Name[strings.Index(o.Name, "/post")+5:]
+			if k := strings.LastIndex(lab, "@"); k >= 0 {
+				lab = lab[:k]
+			}
+			if strings.HasPrefix(lab, ":") {
+				for _, e := range ct.Ensures {
+					if e.Name == lab[1:] {
+						cl = e
+					}
+				}
+			} else if strings.HasPrefix(lab, "#") {
+				if k, err := strconv.Atoi(lab[1:]); err == nil && k >= 1 && k <= len(ct.Ensures) {
+					cl = ct.Ensures[k-1]
+				}
+			}
+		}
+		if cl == nil {
+			postNote = "postcondition clause not found"
+		} else {
+			env := map[string]string{"result": "r0"}
+			for i := 0; i < nres; i++ {
+				env[fmt.Sprintf("result%d", i)] = rnames[i]
+				if n := sig.Results().At(i).Name(); n != "" && n != "_" {
+					env[n] = rnames[i]
+				}
+			}
+			if nres > 0 && sig.Results().At(nres-1).Type().String() == "error" {
+				env["err"] = rnames[nres-1]
+			}
+			for _, p := range params {
+				env[p.name] = p.name
+			}
+			g, ok := specToGoI(cl.Expr, env, func(name string) {
+				for _, ip := range fi.pkg.types.Imports() {
+					if ip.Name() == name {
+						imports[ip.Path()] = ip.Name()
+					}
+				}
+				for _, f := range fi.pkg.files {
+					for _, is := range f.Imports {
+						if is.Name != nil && is.Name.Name == name {
+							imports[strings.Trim(is.Path.Value, "\"")] = name
+						}
+					}
+				}
+			})
+			if !ok {
+				postNote = "postcondition uses quantifiers, ghosts or spec functions: not evaluated in Go"
+			} else {
+				postGo = g
+			}
+		}
+	}
+	var b strings.Builder
+	fmt.Fprintf(&b, "package %s\n\nimport (\n\t\"fmt\"\n\t\"testing\"\n", fi.pkg.types.Name())
+	for path, name := range imports {
+		fmt.Fprintf(&b, "\t%s %q\n", name, path)
+	}
+	fmt.Fprintf(&b, ")\n\nfunc verifReplayIte[T any](c bool, a, b T) T {\n\tif c {\n\t\treturn a\n\t}\n\treturn b\n}\n\n")
+	fmt.Fprintf(&b, "func TestVerifReplay(t *testing.T) {\n\tdefer func() {\n\t\tif r := recover(); r != nil {\n\t\t\tfmt.Printf(\"REPLAY-PANIC: %%v\\n\", r)\n\t\t}\n\t}()\n")
+	for _, d := range decls {
+		fmt.Fprintf(&b, "\t%s\n", d)
+		fmt.Fprintf(&b, "\t_ = %s\n", strings.TrimSuffix(d[:strings.Index(d, " :=")], ", _"))
+	}
+	if nres > 0 {
+		fmt.Fprintf(&b, "\t%s := %s\n", strings.Join(rnames, ", "), call)
+		for _, r := range rnames {
+			fmt.Fprintf(&b, "\tfmt.Printf(\"REPLAY-RESULT %s: %%#v\\n\", %s)\n", r, r)
+		}
+	} else {
+		fmt.Fprintf(&b, "\t%s\n", call)
+	}
+	if postGo != "" {
+		fmt.Fprintf(&b, "\tif !(%s) {\n\t\tfmt.Println(\"REPLAY-POST-VIOLATED\")\n\t} else {\n\t\tfmt.Println(\"REPLAY-POST-HOLDS\")\n\t}\n", postGo)
+	}
+	fmt.Fprintf(&b, "\t_ = verifReplayIte[int]\n}\n")
+	// run with an overlay: nothing is written into the tree under check
+	tmp, err := os.MkdirTemp("", "govc-replay-")
+	if err != nil {
+		return false, "no replay available: " + err.Error()
+	}
+	defer os.RemoveAll(tmp)
+	testFile := filepath.Join(tmp, "zz_verif_replay_test.go")
+	os.WriteFile(testFile, []byte(b.String()), 0o644)
+	pkgDir := filepath.Join(prog.repo, strings.TrimPrefix(fi.pkg.path, modulePath+"/"))
+	ov := fmt.Sprintf(`{"Replace":{%q:%q}}`, filepath.Join(pkgDir, "zz_verif_replay_test.go"), testFile)
+	ovFile := filepath.Join(tmp, "ov.json")
+	os.WriteFile(ovFile, []byte(ov), 0o644)
+	cmd := exec.Command("go", "test", "-overlay", ovFile, "-vet=off", "-v", "-count=1", "-timeout", "60s", "-run", "^TestVerifReplay$", "./"+strings.TrimPrefix(fi.pkg.path, modulePath+"/")+"/")
+	cmd.Dir = prog.repo
+	cmd.Env = append(os.Environ(), "GOFLAGS=-mod=mod", "GOPROXY=off", "GOSUMDB=off", "GOTOOLCHAIN=local")
+	out, _ := cmd.CombinedOutput()
+	var keep []string
+	for _, l := range strings.Split(string(out), "\n") {
+		if strings.HasPrefix(l, "REPLAY-") || strings.Contains(l, "FAIL") || strings.Contains(l, "cannot") || strings.Contains(l, "undefined") || strings.HasPrefix(l, "ok") {
+			keep = append(keep, l)
+		}
+	}
+	transcript := "inputs from the solver model:\n  " + strings.Join(decls, "\n  ") + "\ncall: " + call + "\n"
+	if postGo != "" {
+		transcript += "postcondition evaluated in Go: " + postGo + "\n"
+	} else if postNote != "" {
+		transcript += postNote + "\n"
+	}
+	transcript += "output of the injected test (go test -overlay):\n  " + strings.Join(keep, "\n  ") + "\n"
+	res := string(out)
+	switch kind {
+	case "safe":
+		if strings.Contains(res, "REPLAY-PANIC:") {
+			return true, transcript
+		}
+	case "post":
+		if strings.Contains(res, "REPLAY-POST-VIOLATED") {
+			return true, transcript
+		}
+	}
+	return false, transcript
+}
+
+func firstLine(s string) string {
+	if k := strings.Index(s, "\n"); k >= 0 {
+		return s[:k]
+	}
+	return s
+}
+
+// smtInt turns an SMT integer value (`5`, `(- 5)`) into Go syntax.
+func smtInt(v string) string {
+	v = strings.TrimSpace(v)
+	if strings.HasPrefix(v, "(-") {
+		return "-" + strings.TrimSpace(strings.TrimSuffix(strings.TrimPrefix(v, "(-"), ")"))
+	}
+	if v == "" {
+		return "0"
+	}
+	return v
+}
+
+// findValue finds `(term value)` in a get-value answer.
+func findValue(out, term string) (string, bool) {
+	k := strings.Index(out, "("+term+" ")
+	if k < 0 {
+		return "", false
+	}
+	rest := out[k+len(term)+2:]
+	rest = strings.TrimLeft(rest, " \n")
+	if strings.HasPrefix(rest, "(") {
+		depth := 0
+		for i, c := range rest {
+			if c == '(' {
+				depth++
+			} else if c == ')' {
+				depth--
+				if depth == 0 {
+					return rest[:i+1], true
+				}
+			}
+		}
+		return "", false
+	}
+	end := strings.IndexAny(rest, ")\n")
+	if end < 0 {
+		return "", false
+	}
+	return strings.TrimSpace(rest[:end]), true
+}
+
+// specToGo translates a quantifier-free specification expression to Go.
+func specToGo(e *SExpr, env map[string]string) (string, bool) {
+	return specToGoI(e, env, nil)
+}
+
+func specToGoI(e *SExpr, env map[string]string, imp func(string)) (string, bool) {
+	if e == nil {
+		return "", false
+	}
+	switch e.Op {
+	case "num":
+		return e.Name, true
+	case "str":
+		return strconv.Quote(e.Name), true
+	case "true", "false", "nil":
+		return e.Op, true
+	case "result":
+		return env["result"], true
+	case "ident":
+		if g, ok := env[e.Name]; ok {
+			return g, true
+		}
+		return e.Name, true
+	case "old":
+		// parameters are passed by value and not reassigned by the injected test
+		return specToGoI(e.Args[0], env, imp)
+	case "un":
+		a, ok := specToGoI(e.Args[0], env, imp)
+		if !ok {
+			return "", false
+		}
+		return "(" + e.Name + a + ")", true
+	case "bin":
+		a, ok1 := specToGoI(e.Args[0], env, imp)
+		b, ok2 := specToGoI(e.Args[1], env, imp)
+		if !ok1 || !ok2 {
+			return "", false
+		}
+		switch e.Name {
+		case "==>":
+			return "(!(" + a + ") || (" + b + "))", true
+		case "<==>":
+			return "((" + a + ") == (" + b + "))", true
+		}
+		return "(" + a + " " + e.Name + " " + b + ")", true
+	case "index":
+		a, ok1 := specToGoI(e.Args[0], env, imp)
+		b, ok2 := specToGoI(e.Args[1], env, imp)
+		if !ok1 || !ok2 {
+			return "", false
+		}
+		return a + "[" + b + "]", true
+	case "field":
+		if e.Args[0].Op == "ident" && imp != nil {
+			if _, local := env[e.Args[0].Name]; !local {
+				imp(e.Args[0].Name)
+			}
+		}
+		a, ok := specToGoI(e.Args[0], env, imp)
+		if !ok {
+			return "", false
+		}
+		return a + "." + e.Name, true
+	case "call":
+		var as []string
+		for _, x := range e.Args {
+			a, ok := specToGoI(x, env, imp)
+			if !ok {
+				return "", false
+			}
+			as = append(as, a)
+		}
+		switch e.Name {
+		case "len", "min", "max", "int", "int64", "uint64", "uint", "uint32", "int32", "uint8", "byte":
+			return e.Name + "(" + strings.Join(as, ", ") + ")", true
+		case "ite":
+			if len(as) == 3 {
+				return "verifReplayIte(" + strings.Join(as, ", ") + ")", true
+			}
+		}
+		return "", false
+	}
+	return "", false
+}
+
+var _ = ast.Unparen
